@@ -119,6 +119,16 @@ def run(tier, seed):
                 nsm = rnd.choice([{'': 'urn:one'}, {'': 'urn:two', 'o': 'urn:one'}, {'': 'http://www.w3.org/1999/xhtml'}, {'': 'urn:none'}])
             sc.add(pat, ops, namespaces=nsm)
             sc.meta[pat] = [[cp]]
+        if '/xml/' in label or '/html5lib/' in label:
+            # directed: the implicit `of *|*` counts EVERY sibling, whatever default namespace the caller supplies
+            used = sorted({e.namespace for e in sc.elements if getattr(e, 'namespace', None)}) or ['urn:one']
+            for kind, a, b in (('nth-child', 0, rnd.randint(1, 4)), ('nth-last-child', 2, 1), ('nth-child', rnd.choice([1, 2, -1]), rnd.randint(0, 3))):
+                pat = f'*|*:{kind}({a}n+{b})'
+                nsm = {'': rnd.choice(used + ['urn:none'])}
+                ops = [('select', (), 0)] + [('match', sc.path_of[id(e)]) for e in sc.elements[:12]]
+                if pat not in sc.meta:
+                    sc.add(pat, ops, namespaces=nsm)
+                    sc.meta[pat] = [[{'type': ('*', '*'), 'pseudos': [('nth', kind, a, b, None)]}]]
         # keyword forms coincide with their An+B instances
         for kw, eq in ((':first-child', ':nth-child(1)'), (':last-child', ':nth-last-child(1)'),
                        (':first-of-type', ':nth-of-type(1)'), (':last-of-type', ':nth-last-of-type(1)'),
